@@ -11,6 +11,7 @@ G:    GroupGen   - every small table x key form with its partition; the real agg
 V:    GroupTrace - Hypothesis tables; groups captured by identity-collecting aggregators, validated by TLC.
 """
 import json
+import random
 import operator
 from collections import OrderedDict
 
@@ -314,6 +315,22 @@ def record_traces(n_examples, seed):
         traces.append({'K': abst, 'groups': groups, 'counts': counts, 'ordered': True, 'raised': raised is not None, 'exc': raised or ''})
         concrete.append({'op': op, 'keys': [repr(k) for k in keys], 'buffersize': bs})
     go()
+    # LARGE tables: the chunked sort behind the grouping operators with > 64 chunk files / > 256 rows per chunk
+    rng = random.Random(seed)
+    for n, bs in ((343, 3), (400, 4), (700, 300), (130, 1)):
+        keys = [rng.choice([None, 1, 2, 3, u'x', 2.5]) for _ in range(n)]
+        t = [['k', 'id']] + [[k, i + 1] for i, k in enumerate(keys)]
+        raised = None
+        with common.private_tmp() as tmp:
+            try:
+                rows = list(etl.data(etl.aggregate(t, 'k', list, 'id', buffersize=bs, tempdir=tmp)))
+                groups = [list(r[1]) for r in rows]
+                counts = [r[1] for r in etl.data(etl.aggregate(t, 'k', len, buffersize=bs, tempdir=tmp))]
+            except Exception as e:
+                raised, groups, counts = repr(e), [], []
+        traces.append({'K': values.abstract_batch(keys), 'groups': groups, 'counts': counts, 'ordered': True,
+                       'raised': raised is not None, 'exc': raised or ''})
+        concrete.append({'op': 'aggregate(list) large', 'keys': '%d rows over 6 key values' % n, 'buffersize': bs})
     return traces, concrete
 
 
